@@ -9,7 +9,8 @@ FUNCTIONS = ['uxarray.core.dataarray.UxDataArray.integrate@dims=n_face',
     'uxarray.core.dataarray.UxDataArray.integrate@dims=n_edge',
     'uxarray.core.dataarray.UxDataArray.integrate@dims=lev,n_edge',
     'uxarray.core.dataarray.UxDataArray.integrate@dims=n_face,lev',
-    'uxarray.core.dataarray.UxDataArray.integrate@dims=time']
+    'uxarray.core.dataarray.UxDataArray.integrate@dims=time',
+    'uxarray.grid.grid.Grid.calculate_total_face_area']
 STANDINS = ["integration"]
 ASSUMPTIONS = []
 EXPLANATION = ""
